@@ -207,5 +207,10 @@ fn y_matrix(
     })
 }
 
+#[cfg(alpha_g_verif)]
+pub(crate) fn verif_wire_response() -> Vec<f64> {
+    WIRE_RESPONSE.clone()
+}
+
 #[cfg(test)]
 mod tests;
